@@ -260,6 +260,9 @@ type job struct {
 }
 
 // Run is the C01 monitor.
+// ProxyLayer, when set (props/c01/proxy), runs the wire-level layer of this property over the PostgreSQL proxy rig.
+var ProxyLayer func(r *ev.Run)
+
 func Run(r *ev.Run) {
 	r.Rule = "cases = (keystore format × client with 0-3 rotations × entry point × plaintext length around header sizes × content class × framing kind), seeded sample (quick) or full product over 3 streams (thorough); a case is non-trivial when protect succeeded with a changed value AND at least one reveal returned the original; distinct = (keystore, entry point, reveal point, length class, content class, framing kind) tuples that completed such a round trip"
 	r.Assumptions = []string{
@@ -461,6 +464,9 @@ func Run(r *ev.Run) {
 		r.RequireAtLeast("roundtrip:"+ep.name, 20)
 	}
 	r.RequireAtLeast("passthrough_of_valid_envelope", 20)
+	if ProxyLayer != nil {
+		ProxyLayer(r)
+	}
 }
 
 func indexOf(cs []client, c client) int {
